@@ -41,6 +41,11 @@ def generators():
     except ImportError:
         pass
     try:
+        from . import mutation
+        gens['MutGen'] = mutation.generate
+    except ImportError:
+        pass
+    try:
         from . import genir
         gens['IRGen'] = genir.generate
     except ImportError:
